@@ -14,6 +14,7 @@ import (
 	"github.com/cinar/indicator/v2/helper"
 	"pgregory.net/rapid"
 	"verif/harness/engine"
+	"verif/harness/pipe"
 	"verif/harness/stub"
 )
 
@@ -158,6 +159,7 @@ func execute(c Case, workers int) (outcome, string) {
 			list = append(list, a.Name)
 		}
 	}
+	hang := ""
 	run := func() error {
 		s := asset.NewSync()
 		s.Workers, s.Delay = workers, 0
@@ -165,7 +167,11 @@ func execute(c Case, workers int) (outcome, string) {
 		if c.Explicit {
 			s.Assets = append([]string{}, list...)
 		}
-		return s.Run(fs, ft, day0.AddDate(0, 0, c.Start))
+		var err error
+		if verdict, detail := pipe.Call(func() { err = s.Run(fs, ft, day0.AddDate(0, 0, c.Start)) }); verdict != "ok" {
+			hang = fmt.Sprintf("Sync.Run with %d workers never returned: %s: %s", workers, verdict, detail)
+		}
+		return err
 	}
 	read := func() map[string][]int {
 		m := map[string][]int{}
@@ -180,8 +186,14 @@ func execute(c Case, workers int) (outcome, string) {
 		return m
 	}
 	res.err1 = run()
+	if hang != "" {
+		return res, hang
+	}
 	res.state = read()
 	res.err2 = run()
+	if hang != "" {
+		return res, hang
+	}
 	res.state2 = read()
 	return res, ""
 }
